@@ -1,8 +1,8 @@
 package lab
 
 import (
-	"log"
 	"github.com/bolkedebruin/gokrb5/v8/service"
+	"log"
 	"net/http"
 	"net/http/httptest"
 	"testing"
